@@ -387,6 +387,8 @@ func (m *Machine) get(st *State, fr *Frame, v ssa.Value) Val {
 // execCount / execPanics: how often each index, element-address and slice instruction was interpreted in
 // this process, and the first panic message seen at an instruction (used by C18-BOUNDS as bounded evidence
 // for sites that none of its proof idioms covers).
+var blockCount = map[*ssa.BasicBlock]int{}   // how often each basic block was entered by any interpretation in this process
+var nontermFns = map[*ssa.Function]string{} // functions in which a run exceeded the step limit
 var execCount = map[ssa.Instruction]int{}
 var execPanics = map[ssa.Instruction]string{}
 
@@ -403,10 +405,16 @@ func (m *Machine) Run(st *State) []*State {
 				s.Status = stStuck
 				s.Msg = fmt.Sprintf("NONTERMINATION: %d steps without consuming input in %s", m.StepLimit, fname(s.top().Fn))
 				s.Notes["nonterm"] = true
+				for _, fr := range s.Frames {
+					nontermFns[fr.Fn] = s.Msg
+				}
 				break
 			}
 			var cur ssa.Instruction
 			if fr := s.top(); fr.PC < len(fr.Blk.Instrs) {
+				if fr.PC == 0 {
+					blockCount[fr.Blk]++
+				}
 				cur = fr.Blk.Instrs[fr.PC]
 				switch cur.(type) {
 				case *ssa.Index, *ssa.IndexAddr, *ssa.Slice:
@@ -1262,6 +1270,9 @@ func (m *Machine) callFn(st *State, fr *Frame, x *ssa.Call, fn *ssa.Function, ar
 	return nil
 }
 
+// interpretedDeps: third-party packages small and pure enough to be interpreted like repository code.
+var interpretedDeps = map[string]bool{"pault.ag/go/topsort": true}
+
 func inRepoOrRef(fn *ssa.Function) bool {
 	if fn.Pkg == nil {
 		// anonymous functions have Pkg via parent
@@ -1271,12 +1282,12 @@ func inRepoOrRef(fn *ssa.Function) bool {
 		// method wrappers (pointer receiver / promoted through embedding) belong to the wrapped method
 		if o := fn.Object(); o != nil && o.Pkg() != nil && fn.Blocks != nil {
 			pp := o.Pkg().Path()
-			return strings.HasPrefix(pp, repoModule) || strings.HasPrefix(pp, "gdsa/")
+			return strings.HasPrefix(pp, repoModule) || strings.HasPrefix(pp, "gdsa/") || interpretedDeps[pp]
 		}
 		return false
 	}
 	p := fn.Pkg.Pkg.Path()
-	return strings.HasPrefix(p, repoModule) || strings.HasPrefix(p, "gdsa/")
+	return strings.HasPrefix(p, repoModule) || strings.HasPrefix(p, "gdsa/") || interpretedDeps[p]
 }
 
 func (m *Machine) builtin(st *State, x *ssa.Call, name string, args []Val) (Val, bool) {
